@@ -43,8 +43,21 @@ fn lockstep<S: Spec>(seed: &[u8], n_out: usize, image_every: usize, mix_widths: 
             if k % 2 == 0 {
                 rng = rng.clone();
             } else {
-                let mut other = S::from_seed(&vec![0x5au8; S::SEED_LEN]);
-                for _ in 0..(k % 300) { other.next_u32(); }
+                // destination: unrelated, or differing from the current state in one word
+                let mut other = match (k % 3, model.state_bytes()) {
+                    (0, Some(mut st)) => {
+                        let wbytes = word_bytes(S::FAMILY);
+                        let w = (k / 3) % (S::SEED_LEN / wbytes);
+                        st[w * wbytes] ^= 0x10;
+                        if st.iter().all(|&b| b == 0) { st[0] = 1; }
+                        S::from_seed(&st)
+                    }
+                    _ => {
+                        let mut o = S::from_seed(&vec![0x5au8; S::SEED_LEN]);
+                        for _ in 0..(k % 300) { o.next_u32(); }
+                        o
+                    }
+                };
                 other.clone_from(&rng);
                 rng = other;
             }
@@ -377,7 +390,30 @@ fn case(prop: u32, sub: &str, id: u64, ctx: &Ctx, r: &mut Report) {
                     wr(&mut y, j, if xor { v ^ d } else { v.wrapping_add((*c as i64 * d as i64) as u32) });
                 }
                 if y != x && (!S::LINEAR || y.iter().any(|&b| b != 0)) && (!S::LINEAR || x.iter().any(|&b| b != 0)) {
-                    let _first = S::from_seed(&x);
+                    // the construction just before: from_seed of the related seed, or another
+                    // route whose input merely STARTS with the bytes of y (a cache keyed on a
+                    // prefix of its input would hand the wrong state to from_seed(y))
+                    match p.below(4) {
+                        0 => {
+                            let mut d = y.clone();
+                            d.extend(p.bytes(2100));
+                            let _first = <<S as Spec>::R as rand_core::SeedableRng>::from_rng(&mut crate::drive::SourceRng::new(d));
+                            r.cov("prefix_related_from_rng");
+                        }
+                        1 => {
+                            let mut d = y.clone();
+                            d.extend(p.bytes(2100));
+                            let _first = <<S as Spec>::R as rand_core::SeedableRng>::try_from_rng(&mut crate::drive::FallibleSource(crate::drive::SourceRng::new(d)));
+                            r.cov("prefix_related_from_rng");
+                        }
+                        2 => {
+                            let x64 = u64::from_le_bytes(y[..8].try_into().unwrap());
+                            let _first = <<S as Spec>::R as rand_core::SeedableRng>::seed_from_u64(x64);
+                        }
+                        _ => {
+                            let _first = S::from_seed(&x);
+                        }
+                    }
                     // second construction right after the first, same thread
                     if lockstep::<S>(&y, 40, 0, true, sub, id, r) {
                         r.cov("related_pairs");
@@ -736,6 +772,7 @@ pub fn run(prop: u32, ctx: &Ctx, only: Option<&Only>) -> Report {
     }
     total.floor("single_byte_seeds", 20);
     total.floor("related_pairs", 1_000);
+    total.floor("prefix_related_from_rng", 300);
     if prop == 3 {
         total.floor("crafted:IsaacCore", 50);
         total.floor("crafted:Isaac64Core", 50);
